@@ -43,6 +43,26 @@ def parse_case(line):
         for _ in range(n):
             toks.append(nxt())
         toks.append(nxt())
+        # optional blocks: G n (nseg seg* leaf)* — tags; K n id* — linked ids
+        if pos[0] < len(t) and t[pos[0]] == "G":
+            toks.append(nxt())
+            n = int(nxt())
+            toks.append(str(n))
+            for _ in range(n):
+                m = int(nxt())
+                toks.append(str(m))
+                for _ in range(m):
+                    toks += [nxt(), nxt()]
+                leaf = nxt()
+                toks.append(leaf)
+                if leaf == "s":
+                    toks.append(nxt())
+        if pos[0] < len(t) and t[pos[0]] == "K":
+            toks.append(nxt())
+            n = int(nxt())
+            toks.append(str(n))
+            for _ in range(n):
+                toks.append(nxt())
         return toks
 
     def step():
@@ -65,6 +85,12 @@ def parse_case(line):
                     toks.append(nxt())
         elif k in ("fail", "fail1", "ac"):
             toks.append(nxt())
+        elif k == "lk":
+            toks += [nxt(), nxt()]
+            n = int(nxt())
+            toks.append(str(n))
+            for _ in range(n):
+                toks.append(nxt())
         elif k == "ap":
             toks += [nxt(), nxt()]
         return toks
@@ -74,6 +100,10 @@ def parse_case(line):
         return {"head": [], "items": [[nxt(), nxt()] for _ in range(int(nxt()))]}
 
     assert nxt() == "E"
+    shared = False
+    if t[pos[0]] == "S":
+        nxt()
+        shared = True
     regs_p = [reg() for _ in range(int(nxt()))]
     regs_c = [reg() for _ in range(int(nxt()))]
     txl = int(nxt())
@@ -96,11 +126,12 @@ def parse_case(line):
         steps = [step() for _ in range(int(nxt()))]
         txs.append({"mode": mode, "reuse": reuse, "steps": steps})
     assert pos[0] == len(t)
-    return {"regsP": regs_p, "regsC": regs_c, "txl": txl, "ixP": ix_p, "ixC": ix_c, "regsD": regs_d, "ixD": ix_d, "txs": txs}
+    return {"regsP": regs_p, "regsC": regs_c, "txl": txl, "ixP": ix_p, "ixC": ix_c, "regsD": regs_d, "ixD": ix_d, "txs": txs,
+            "shared": shared}
 
 
 def unparse_case(c):
-    out = ["E"]
+    out = ["E"] + (["S"] if c.get("shared") else [])
     for regs in (c["regsP"], c["regsC"]):
         out.append(str(len(regs)))
         for r in regs:
@@ -162,6 +193,10 @@ def shrink_candidates(c):
     if c["txl"] > 0:
         d = copy.deepcopy(c)
         d["txl"] = 0
+        yield d
+    if c.get("shared"):
+        d = copy.deepcopy(c)
+        d["shared"] = False
         yield d
     for i, tx in enumerate(c["txs"]):
         for j, st in enumerate(tx["steps"]):
